@@ -4,7 +4,7 @@ import DaeVerif.C16.Proofs
 
 Only statements a reader should audit live here (namespace `DaeVerif.C16.Props`); definitions they
 mention (`step`, `run`, `touch`, `specCount`, `touchAddr`, `specAddr`, `ForcedCause`, `EdgesAt`,
-`AgreeAt`, `SetInv`, `Event.OK`, `Event.Sane`, …) are in `Model.lean` / `Proofs.lean`.
+`AgreeAt`, `SetInv`, `Event.Sane`, …) are in `Model.lean` / `Proofs.lean`.
 Every theorem is about the definitions the driver `c16drv` executes, quantifies over all states /
 histories / latency inputs, and is followed by a non-vacuity `example`.
 
@@ -19,8 +19,8 @@ Clause map of the property statement:
 * reload suppression — `suppressed_failures_dont_count`, `suppression_window`;
 * callbacks exactly once per transition — `callbacks_on_edges_only`, `callbacks_on_edges_only_history`;
 * every group sees the node's state — `groups_see_state`;
-* kernel bit — `kernel_bit_partial` (+ `kernel_bit_full`, `kernel_bit_full_fails`), `group_callbacks_are_edges`,
-  `random_policy_never_writes`, `kernel_key_injective`;
+* kernel bit — `kernel_bit`, `group_callbacks_are_edges`, `random_policy_never_writes`, `kernel_key_injective`
+  (the code as of fix addc261: the `time.Hour` start value no longer bounds selectable latencies);
 * reload — `reload_hands_over_state`, `reload_snapshot_drops_counters`, `reload_floor_leaves_selectable`.
 -/
 namespace DaeVerif.C16.Props
@@ -241,59 +241,49 @@ example :
 
 /-! ## kernel connectivity bit -/
 
-/-- One notification of a latency-policy set (satisfying the set invariant, latency below the
-one-hour sentinel): the group callbacks fired are exactly the edges of "the set is non-empty". -/
+/-- One notification of a latency-policy set satisfying the set invariant, for ANY latency value: the
+group callbacks fired are exactly the edges of "the set is non-empty". -/
 theorem group_callbacks_are_edges (s : ASet) (d : Nat) (a : Bool) (lat : Option Int) (h : SetInv s)
-    (hl : LatOK s d lat) (hmp : s.minPolicy = true) :
+    (hmp : s.minPolicy = true) :
     replay (!s.entries.isEmpty) (s.notify d a lat).2 = some (!(s.notify d a lat).1.entries.isEmpty) :=
-  notify_replay s d a lat h hl hmp
+  notify_replay s d a lat h hmp
 
 /-- A random-policy set never fires the group callback (its kernel bit keeps the init value). -/
 theorem random_policy_never_writes (s : ASet) (d : Nat) (a : Bool) (lat : Option Int) (h : s.minPolicy = false) :
     (s.notify d a lat).2 = [] :=
   notify_nonmin_silent s d a lat h
 
-/-- Full-strength statement (no assumption on latencies): after any history the value last handed to
-the group callback of a latency-policy set equals "the set is non-empty" (unless no callback has fired
-since the init callbacks).  **False for the code as it is** — see `kernel_bit_full_fails`. -/
-def kernel_bit_full : Prop :=
-  ∀ h : List Event, ∀ s ∈ (run World.init h).1.sets, s.minPolicy = true →
-    (s.entries ≠ [] → s.kbit = true) ∧ (s.entries = [] → s.kbit = false ∨ s.ncb = 0)
-
-/-- **Kernel bit (partial: latencies and offsets far below one hour).** After any history whose latency
-inputs are below 40 min and whose groups have tolerance and offsets ≤ 10 min (`Event.OK`), every
-latency-policy set satisfies: non-empty ⇒ the bit last written is 1; empty ⇒ the bit last written is 0
-(or nothing was written since the init callbacks).  Missing w.r.t. `kernel_bit_full`: sorting latencies
-≥ 1 h − tolerance, for which `NotifyLatencyChange` refuses to select the node (the `time.Hour` sentinel). -/
-theorem kernel_bit_partial (h : List Event) (hok : ∀ e ∈ h, e.OK) :
+/-- **Kernel bit.** After any history from the initial state, with any latency inputs, offsets and
+tolerances, every set satisfies the set invariant and every latency-policy set satisfies: non-empty ⇒
+the value last handed to the group callback (the kernel connectivity bit) is 1 and a best node is
+selected; empty ⇒ the bit last written is 0 (or no callback has fired since the group's init
+callbacks, which write 1 unconditionally). -/
+theorem kernel_bit (h : List Event) :
     ∀ s ∈ (run World.init h).1.sets, SetInv s ∧ (s.minPolicy = true →
-      (s.entries ≠ [] → s.kbit = true) ∧ (s.entries = [] → s.kbit = false ∨ s.ncb = 0)) := by
-  have := run_good h World.init hok (by intro s hs; simp [World.init] at hs)
+      (s.entries ≠ [] → s.kbit = true ∧ s.minD.isSome = true) ∧ (s.entries = [] → s.kbit = false ∨ s.ncb = 0)) := by
+  have := run_good h World.init (by intro s hs; simp [World.init] at hs)
   intro s hs
-  exact ⟨(this s hs).1, (this s hs).1.bit⟩
+  refine ⟨this s hs, fun hmp => ⟨fun hne => ⟨((this s hs).bit hmp).1 hne, ?_⟩, ((this s hs).bit hmp).2⟩⟩
+  cases hm : s.minD with
+  | some _ => rfl
+  | none => exact absurd (((this s hs).sel hmp).mp hm) hne
 
 /-- all members die (bit 0), one revives by traffic without any latency (bit 1 again — finding #13) -/
 example :
     let h : List Event := [.node 0 0, .node 1 0, .group 0 2 .minLast 0 [(0, 0), (1, 0)] [],
       .forced 0 .u4 [], .forced 1 .u4 [], .tok 1 .u4 []]
-    (∀ e ∈ h, e.OK) ∧
     ((run World.init (h.take 5)).1.sets.map fun s => (s.idx, s.kbit)) =
       [(2, true), (3, true), (4, true), (5, true), (6, false), (7, true)] ∧
     ((run World.init h).1.sets.map fun s => (s.idx, s.kbit, keys s.entries)) =
       [(2, true, [0, 1]), (3, true, [0, 1]), (4, true, [0, 1]), (5, true, [0, 1]), (6, true, [1]), (7, true, [0, 1])] := by
-  refine ⟨?_, by decide, by decide⟩
-  intro e he
-  simp only [List.mem_cons, List.not_mem_nil, or_false] at he
-  rcases he with rfl | rfl | rfl | rfl | rfl | rfl <;>
-    simp [Event.OK, Event.oracle, Oracle.Small, slack]
+  decide
 
-/-- The unrestricted statement fails: a node that revives with a sorting latency above one hour is added
-to the set but never selected, so no callback fires and the bit stays 0 with a non-empty set. -/
-theorem kernel_bit_full_fails : ¬ kernel_bit_full := by
-  intro hfull
-  have := hfull [.node 0 0, .group 0 2 .minLast 0 [(0, 0)] [], .forced 0 .t4 [],
-    .probe 0 .t4 (.ok 0) .err [((0, 4, 0), hour + 1)]]
-  revert this
+/-- a node reviving with a sorting latency above one hour is selected too (hour sentinel, fixed by addc261) -/
+example :
+    let h : List Event := [.node 0 0, .group 0 2 .minLast 0 [(0, 0)] [], .forced 0 .t4 [],
+      .probe 0 .t4 (.ok 0) .err [((0, 4, 0), hour + 1)]]
+    ((run World.init h).1.sets.map fun s => (s.idx, s.kbit, s.minD)) =
+      [(2, true, some 0), (3, true, some 0), (4, true, some 0), (5, true, some 0), (6, true, some 0), (7, true, some 0)] := by
   decide
 
 /-- Distinct (outbound, network type) pairs write distinct keys of `outbound_connectivity_map`, inside
@@ -326,17 +316,17 @@ theorem reload_hands_over_state (w : World) (n m : Nat) (o : Oracle) (i : Nat) (
 fallback candidate (if any) is a member, the set is non-empty — and, for a latency policy, has a
 selected best node (`GetMinLatency` returns it). -/
 theorem reload_floor_leaves_selectable (w : World) (g : Nat) (fb : Nat → Option Nat) (o : Oracle)
-    (hgood : ∀ s ∈ w.sets, GoodSet s) (ho : o.Small)
+    (hgood : ∀ s ∈ w.sets, SetInv s)
     (hready : ∀ t ∈ standardTyps, ∀ s, findSet w.sets g t.idx = some s →
       s.active = true ∧ s.members ≠ [] ∧ ∀ c, fb t.idx = some c → c ∈ s.members) :
     ∀ t ∈ standardTyps, ∀ s, findSet (step w (.floor g fb o)).1.sets g t.idx = some s →
       s.entries ≠ [] ∧ (s.minPolicy = true → s.minD.isSome = true) := by
   intro t ht s hs
-  have hnd : SetsAll NodupSet w := fun s hs => (hgood s hs).1.nodup
+  have hnd : SetsAll NodupSet w := fun s hs => (hgood s hs).nodup
   have h1 := (floorFrom_props g fb o standardTyps w hnd hready).2 t ht s hs
-  have h2 := floorFrom_pres GoodSet o (goodSet_stable o ho) standardTyps w g fb hgood s (findSet_mem _ _ _ _ hs).1
+  have h2 := floorFrom_pres GoodSet o (goodSet_stable o) standardTyps w g fb hgood s (findSet_mem _ _ _ _ hs).1
   refine ⟨h1, fun hmp => ?_⟩
-  have := (h2.1.sel hmp)
+  have := (h2.sel hmp)
   cases hm : s.minD with
   | some _ => rfl
   | none => exact absurd (this.mp hm) h1
